@@ -32,7 +32,7 @@ def required_buckets(tier):
             'C13/form/tuple_slice_atom', 'C13/form/tuple_atom_slice', 'C13/form/tuple_slice_slice', 'C13/form/list',
             'C13/form/malformed', 'C13/labels/default', 'C13/labels/custom', 'C13/labels/28rows', 'C13/step/2', 'C13/step/3',
             'C13/open_end', 'C13/step/backwards', 'C13/subslice/looked_at_parent', 'C13/subslice/negative_index', 'C13/labels/callers_list_changed', 'C13/subslice/index_past_the_selection',
-            'C13/subslice/bool', 'C13/subslice/copy_and_name', 'C13/subslice/name_of_an_empty_selection', 'C13/malformed/bool', 'C13/malformed/nested_tuple']
+            'C13/labels/colon_in_a_label', 'C13/subslice/bool', 'C13/subslice/copy_and_name', 'C13/subslice/name_of_an_empty_selection', 'C13/malformed/bool', 'C13/malformed/nested_tuple']
 
 
 def plan(tier, seed):
@@ -444,6 +444,25 @@ def labels(rng, case, idx):
         if got_ != want_ or gotc != [(0, 1), (1, 1), (2, 1)]:
             M.violate(['C13', 'C04'], 'ADDR', f'C13:labels_follow_the_callers_list:{change}', {'got': got_, 'column_y': gotc, 'documented': want_})
             break
+    # a label that reads like the 'row:column' form: either the plate is refused where it is made, or the label selects what
+    # its index selects
+    M.count('ADDR.labels')
+    M.bucket('C13/labels/colon_in_a_label')
+    try:
+        pc = pp.Plate('dilutions', '100 uL', rows=['1', '1:2', '1:4', '1:8'], columns=6)
+    except Exception:   # noqa
+        pc = None
+    if pc is not None:
+        posc = {id(pc.wells[i, j]): (i, j) for i in range(4) for j in range(6)}
+        for lab, k_ in (('1:2', 2), ('1:4', 3), ('1:8', 4)):
+            try:
+                by_label = [posc[id(w_)] for w_ in pc[lab].get().flatten()]
+            except Exception as e:   # noqa
+                by_label = repr(e)[:80]
+            by_index = [posc[id(w_)] for w_ in pc[k_].get().flatten()]
+            if by_label != by_index:
+                M.violate(['C13'], 'ADDR', 'C13:a_label_selects_other_wells_than_its_index:colon_in_the_label', {'label': lab, 'index': k_, 'by_label': by_label, 'by_index': by_index[:3]})
+                break
     for Rn, Cn in ((1, 1), (8, 12), (16, 24), (26, 2), (27, 2), (28, 3), (53, 1), (703, 1)):
         plate = pp.Plate('p', '1 mL', rows=Rn, columns=Cn)
         M.count('ADDR.labels')
